@@ -57,14 +57,13 @@ def joinSlash : List Str → Str
 /-- a path component pathlib keeps: `if x and x != '.'` -/
 def realSeg (x : Str) : Bool := !x.isEmpty && x != ['.']
 
-/-- `posixpath.splitroot(p)` → `(root, rel)` (the drive is always `''`): exactly two leading slashes are a root of
-their own, one or three-and-more collapse to `/`. -/
+/-- `posixpath.splitroot(p)` → `(root, rel)` (the drive is always `''`), written with the same slices:
+`p[:1] != '/'` → `('', p)`; `p[1:2] != '/' or p[2:3] == '/'` → `('/', p[1:])`; else `(p[:2], p[2:])`.
+Exactly two leading slashes are a root of their own, one or three-and-more collapse to `/`. -/
 def splitroot (p : Str) : Str × Str :=
-  match p with
-  | '/' :: '/' :: '/' :: rest => (['/'], '/' :: '/' :: rest)
-  | '/' :: '/' :: rest => (['/', '/'], rest)
-  | '/' :: rest => (['/'], rest)
-  | _ => ([], p)
+  if p.take 1 != ['/'] then ([], p)
+  else if (p.drop 1).take 1 != ['/'] || (p.drop 2).take 1 == ['/'] then (['/'], p.drop 1)
+  else (p.take 2, p.drop 2)
 
 /-- `str(pathlib.PurePosixPath(p))` -/
 def pathStr (p : Str) : Str :=
